@@ -446,6 +446,35 @@ def meshgen_suite(stats, tier=None, label="function:meshgen"):
                     np.concatenate([sm.ravel() for sm in secs]), exact=not shift)
                 if k == 1:
                     stats.sample(dict(suite=label, num_x=nx, num_y=ny, symmetry=sym, span=span, chord=chord, span_cos_spacing=s, chord_cos_spacing=cs))
+    # the multi-section generator (geometry_mesh_gen.generate_mesh): symmetric and full-span, 1-5 sections on either side of the root
+    from openaerostruct.geometry.geometry_mesh_gen import generate_mesh as gen_sections
+    for k in range(16 if tier == "quick" else 80):
+        rng = core.rng_for("sections", k)
+        n = int(rng.integers(1, 6)); nxs = int(rng.integers(2, 5))
+        nys = [int(rng.integers(2, 6)) for _ in range(n)]
+        taper = [float(rng.choice([1.0, rng.uniform(0.4, 1.2)])) for _ in range(n)]
+        span = [float(rng.uniform(0.3, 4)) for _ in range(n)]; sweep = [float(rng.uniform(-0.3, 0.6)) for _ in range(n)]
+        sym = bool(rng.integers(2)) or n == 1
+        root = n - 1 if sym else int(rng.integers(0, n))
+        surface = dict(name="s", num_sections=n, sec_name=["s%d" % i for i in range(n)], symmetry=sym, taper=taper, span=span, sweep=sweep,
+                       root_chord=float(rng.uniform(0.5, 3)), meshes="gen-meshes", nx=nxs, ny=nys, root_section=root)
+        ints = [nxs, int(sym), root, n] + nys
+        fl = np.array([surface["root_chord"]] + [v for t3 in zip(taper, span, sweep) for v in t3])
+        try:
+            with quiet():
+                mesh, secs = gen_sections(surface)
+            real = np.concatenate([np.asarray(m, dtype=float).ravel() for m in secs])
+            mod = core.model_value("SectionGeometry", ints, fl)
+            ok, msg = close_vec(real, mod, rtol=1e-12, atol=1e-13)
+            if not ok:
+                stats.disagreements.append(dict(kind="function-value", component="generate_section_geometry", size=(nxs, tuple(nys), sym),
+                                                detail=msg, seed_keys=["sections", k]))
+        except DriverError:
+            raise
+        except Exception as e:
+            stats.disagreements.append(dict(kind="real-code-exception", component="generate_section_geometry", size=(nxs, tuple(nys), sym),
+                                            detail="%s: %s" % (type(e).__name__, str(e)[:200]), seed_keys=["sections", k]))
+        stats.count(label + ":generate_section_geometry", case_hash("sections", ints, fl), True, ("sections=%d" % n, "symmetry=%s" % sym))
     return stats
 
 
